@@ -13,6 +13,7 @@ exception.
 from __future__ import annotations
 
 import itertools
+import os
 import sys
 import time
 from collections import Counter
@@ -163,6 +164,28 @@ def classify(res):
     return "crash"
 
 
+def constants_case(k: int):
+    """program k of the constants stream -> (statements, version, mode)"""
+    import pyteal as _pt
+    rc = rng(f"c20-const-{k}")
+    v = rc.choice([3, 4, 5, 6, 8, 10])
+    mode_c = rc.choice(["app", "sig"]) if v < 6 else "app"
+    ints = [lambda n=n: _pt.Int(n) for n in rc.sample([0, 1, 2, 3, 5, 100, 127, 128, 255, 256, 1000, 2000, 3000, 4000, 70000, 2 ** 32, 2 ** 64 - 1], rc.randrange(2, 9))]
+    ints += [lambda: _pt.Tmpl.Int("TMPL_LIMIT"), lambda: _pt.Tmpl.Int("TMPL_OTHER")][: rc.randrange(0, 3)]
+    byts = [lambda s_=s_: _pt.Bytes(s_) for s_ in rc.sample(["", "a", "b", "key", "k0", "k1", "k2", "longer constant"], rc.randrange(1, 7))]
+    byts += [lambda: _pt.Tmpl.Bytes("TMPL_KEY"), lambda: _pt.Tmpl.Addr("TMPL_ADDR"),
+             lambda: _pt.Addr("AAAAAAAAAAAAAAAAAAAAAAAAAAAAAAAAAAAAAAAAAAAAAAAAAAAAY5HFKQ")][: rc.randrange(0, 4)]
+    if v >= 4 and mode_c == "app":
+        byts.append(lambda: _pt.MethodSignature("f(uint64)void"))
+    stmts = []
+    for mk in ints:
+        stmts += [_pt.Pop(mk() + _pt.Int(9)) for _ in range(rc.choice([1, 2, 2, 3, 4]))]
+    for mk in byts:
+        stmts += [_pt.Pop(_pt.Len(mk())) for _ in range(rc.choice([1, 2, 2, 3]))]
+    rc.shuffle(stmts)
+    return stmts, v, mode_c
+
+
 def run(tier: str) -> int:
     rep = Report("C20", tier, level="exploration")
     mods = existing(PROOF_MODULES)
@@ -254,6 +277,27 @@ def run(tier: str) -> int:
         for v, o in ((6, {"scratch_slots": True}), (9, {}), (10, {"scratch_slots": True, "frame_pointers": True})):
             judge(Program("app", main_, [a_, g_], [f_]), v, o, True, "protected-slots", {"case": k}, shared=True)
 
+    # ---- (a'') constants of every kind with random multiplicities (plain, template, address, method selector; small and large ints),
+    # compiled with assembleConstants=True: the constant-block pass ranks them by frequency and must answer for every ranking
+    import pyteal as _pt
+    nconst = 40 if tier == "quick" else 600
+    for k in range(nconst):
+        stmts, v, mode_c = constants_case(k)
+        evaluations += 1
+        try:
+            t_ = _pt.compileTeal(_pt.Seq(*stmts, _pt.Int(1)), _pt.Mode.Application if mode_c == "app" else _pt.Mode.Signature, version=v,
+                                 assembleConstants=True)
+            stats["constants:ok"] += 1
+            distinct.add(t_)
+        except (_pt.TealInputError, _pt.TealCompileError, _pt.TealTypeError, _pt.TealInternalError, _pt.TealPragmaError) as e:
+            stats["constants:err"] += 1
+            rep.violation(f"constants: a program of constants that fits the target was rejected with assembleConstants=True: {type(e).__name__}: {str(e)[:200]} (v{v})",
+                          {"kind": "constants", "index": k, "version": v, "mode": mode_c})
+        except Exception as e:  # noqa: BLE001
+            stats["constants:crash"] += 1
+            rep.violation(f"constants: compiler died with {type(e).__name__}: {str(e)[:200]} (assembleConstants=True, v{v})",
+                          {"kind": "constants", "index": k, "version": v, "mode": mode_c})
+
     # ---- (b) random well-typed programs, model outcome class vs real outcome class
     nrand = 260 if tier == "quick" else 4000
     for i in range(nrand):
@@ -322,6 +366,15 @@ def replay(path: str) -> int:
     body = json.loads(open(path).read())
     print(json.dumps({k: body[k] for k in body if k != "recipe"}, indent=1)[:3000])
     print("recipe:", body.get("recipe", "")[:3000])
+    if body.get("kind") == "constants":
+        import pyteal as _pt
+        os.environ["VERIF_SEED"] = str(body.get("seed", 0))
+        stmts, v, mode_c = constants_case(body["index"])
+        try:
+            t_ = _pt.compileTeal(_pt.Seq(*stmts, _pt.Int(1)), _pt.Mode.Application if mode_c == "app" else _pt.Mode.Signature, version=v, assembleConstants=True)
+            print("compiles now:", len(t_.splitlines()), "lines")
+        except Exception as e:  # noqa: BLE001
+            print("still fails:", type(e).__name__, str(e)[:300])
     if "program_pickle" in body:
         res = compile_real(unpack(body["program_pickle"]), body["version"], **body.get("options", {}))
         print("recompiled with the current /repo:", res[0], res[1:] if res[0] != "ok" else f"{len(res[1].splitlines())} lines")
